@@ -22,7 +22,8 @@ ENGINE = "E2 stateless deviation-bounded explorer over the answers of the user's
 RULE = ("configurations = parameter grids (0-3 unpacked parameters, lengths 1-3, non-sorted insertion "
         "order, list/ndarray values) x rep_max 1..4 x 20 stop predicates (all 16 Boolean functions of the "
         "repetition index, 4 thresholds on the merged result) x mode (all variations / single index / "
-        "simulate twice); per configuration every placement of <= D deviations (value change, skip) over "
+        "simulate twice / 2-3 simulate() calls resuming from kept partial results with the limit raised, "
+        "kept and lowered, mixing all-variations and single-index calls); per configuration every placement of <= D deviations (value change, skip) over "
         "all calls; oracle = reference interpreter (exact call log, runned_reps, merged value, update "
         "count, skipped count, look-ups by fixed values). Non-trivial = execution with >=1 deviation or "
         "an early stop; distinct = distinct (configuration, choice vector)")
@@ -78,19 +79,160 @@ def configs(tier):
                     modes += ["single:%d" % i for i in range(nvar)]
                     if ks[0] in ("default", "sum"):
                         modes += ["singlestr:%d" % i for i in (0, nvar - 1)]    # index given as a string
+                if rep_max == 1 and nvar <= (4 if tier == "thorough" else 3) and (gi < 5 or tier == "thorough") \
+                        and ks in (("rep", 0), ("sum", 3), ("sum", 5), ("default", 0)):
+                    # a results file name is set, so partial results are kept and every further simulate()
+                    # on the same runner RESUMES from them: sequences of (target, limit) steps with the
+                    # limit raised, kept and LOWERED (cfg rep_max is unused; ("rep", 0) stands for the
+                    # always-true predicate)
+                    modes += resume_modes(tier, bool(lengths), ks)
                 for mode in modes:
                     calls = nvar * rep_max * (2 if mode.startswith("twice") else 1)
+                    if mode.startswith("resume:"):
+                        calls = nvar * max(int(st[1:]) for st in mode.split(":")[1].split("-"))
                     if tier == "thorough":
                         bound = 4 if calls <= 8 else (3 if calls <= 16 else 2)
                     else:
                         bound = 3 if calls <= 5 else (2 if calls <= 10 else 1)
+                    if mode.startswith("resume:"):
+                        bound = (2 if calls <= 6 else 1) if tier == "thorough" else 1
                     out.append(dict(grid=gi, lengths=lengths, as_array=list(arr), rep_max=rep_max,
                                     keep=list(ks), mode=mode, bound=bound))
     return out
 
 
+def resume_modes(tier, has_grid, ks):
+    """step = 'a<limit>' (simulate all variations) or 's<limit>' (simulate the LAST variation index only)"""
+    lim = (1, 2, 3)
+    thorough = tier == "thorough"
+    if ks == ("sum", 5) and not thorough:
+        return []
+    pats = ["aaa"] + (["asa", "saa", "ssa"] if has_grid else [])
+    if thorough:
+        pats += ["aa"] + (["aas", "sas", "sss", "as", "sa"] if has_grid else [])
+    out = []
+    for pat in pats:
+        for ls in itertools.product(lim, repeat=len(pat)):
+            if len(set(ls)) == 1 and ls[0] == 1:
+                continue
+            lowered = any(ls[j] < ls[j - 1] for j in range(1, len(ls)))
+            if not thorough and (pat != "aaa" or ks == ("default", 0)) and not lowered:
+                continue
+            out.append("resume:" + "-".join(t + str(l) for t, l in zip(pat, ls)))
+    return out
+
+
+def execute_resume(cfg, ctx, chk):
+    """simulate() several times on ONE runner that keeps partial results (results file name set): every
+    further call resumes each combination from its stored partial result, whatever the new limit is."""
+    from models import runner_model as RM
+    from pyphysim.simulations import runner as R
+    from pyphysim.simulations.results import SimulationResults
+    pd, unpacked = RM.make_grid(cfg["lengths"], as_array=tuple(cfg["as_array"]))
+    keep = tuple(cfg["keep"])
+    steps = [(st[0], int(st[1:])) for st in cfg["mode"].split(":")[1].split("-")]
+    if keep == ("rep", 0):
+        keep = ("true", 0)
+
+    def answer(k, cp):
+        return ANSWERS[ctx.choose(3, "call")]
+
+    clock = seams.VirtualClock()
+    fs = crashfs.CrashFS()
+    case = dict(cfg=cfg, choices="(filled below)")
+    try:
+        fixed = {k: v for k, v in RM._plain(pd).items() if k not in unpacked}
+        vars_ = RM.variations(RM._plain(pd), unpacked)
+        last = len(vars_) - 1
+        observed = []          # per step: what the implementation reports
+        exc = None
+        with seams.patched((R, "time", clock)):
+            runner = RM.ScriptedRunner(pd, unpacked, steps[0][1], keep, answer)
+            runner.set_results_filename(os.path.join(fs.root, "res"))
+            try:
+                for target, limit in steps:
+                    runner.rep_max = limit
+                    if target == "a":
+                        runner.simulate()
+                        res = runner.results
+                        observed.append(dict(runned_reps=list(runner.runned_reps),
+                                             results_runned_reps=list(res.runned_reps),
+                                             v=[(r.get_result(), r.num_updates) for r in res["v"]]))
+                    else:
+                        runner.simulate(last)
+                        observed.append(dict(runned_reps=runner.runned_reps))
+                    # partial results on disk, identified by their parameter values
+                    files = {}
+                    for d, _, fns in os.walk(fs.root):
+                        for fn in fns:
+                            if fn.split(".")[0] == "res":
+                                continue          # the final results file
+                            pr = SimulationResults.load_from_file(os.path.join(d, fn))
+                            vals = RM._plain({n: pr.params[n] for n in unpacked})
+                            idx = vars_.index(vals)
+                            files[idx] = (pr["v"][-1].get_result(), pr["v"][-1].num_updates, pr.current_rep)
+                    observed[-1]["partial_files"] = files
+            except Exception as e:  # noqa
+                exc = e
+        # ---------------- reference -----------------
+        stream = list(ctx.choices)
+        pos = [0]
+        ref_log = []
+
+        def next_answer(rv):
+            c = stream[pos[0]] if pos[0] < len(stream) else 0
+            pos[0] += 1
+            chk.outcome("loop_state", (_cfg_key(cfg), rv.index, len(rv.succ), sum(rv.succ), rv.skipped))
+            chk.count("loop_transitions")
+            full = dict(fixed)
+            full.update(rv.values)
+            ref_log.append((rv.index if unpacked else -1, full))
+            return ANSWERS[c]
+
+        state = {}             # variation -> (rep, merged sum, number of merged repetitions)
+        expected = []
+        for target, limit in steps:
+            todo = range(len(vars_)) if target == "a" else [last]
+            for i in todo:
+                rv = RM.ref_run_variation(RM.RefVariation(i, vars_[i]), limit, keep, next_answer,
+                                          loaded=state.get(i))
+                b = state.get(i, (0, 0, 0))
+                state[i] = (rv.rep, b[1] + sum(rv.succ), b[2] + len(rv.succ))
+            if target == "a":
+                expected.append(dict(runned_reps=[state[i][0] for i in range(len(vars_))],
+                                     results_runned_reps=[state[i][0] for i in range(len(vars_))],
+                                     v=[(state[i][1], state[i][2]) for i in range(len(vars_))]))
+            else:
+                expected.append(dict(runned_reps=state[last][0]))
+            expected[-1]["partial_files"] = {i: (st[1], st[2], st[0]) for i, st in state.items()}
+        case = dict(cfg=cfg, choices=list(ctx.choices))
+        lowered = any(steps[j][1] < steps[j - 1][1] for j in range(1, len(steps)))
+        how = "limit_lowered" if lowered else "limit_not_lowered"
+        if exc is not None:
+            chk.fail(("simulate_raises", type(exc).__name__, how, "resume"), case,
+                     observed="%s: %s" % (type(exc).__name__, exc), expected="simulate() completes")
+            return ("exception", type(exc).__name__)
+        if runner.call_log != ref_log:
+            k = next((i for i, (x, y) in enumerate(zip(runner.call_log, ref_log)) if x != y),
+                     min(len(runner.call_log), len(ref_log)))
+            chk.fail(("call_log", "resume", how), case,
+                     observed="%d calls; first difference at call %d: %r" % (
+                         len(runner.call_log), k, runner.call_log[k:k + 1]),
+                     expected="%d calls; %r" % (len(ref_log), ref_log[k:k + 1]))
+            return ("call_log_mismatch",)
+        for j, (o, e) in enumerate(zip(observed, expected)):
+            for key in e:
+                if o[key] != e[key]:
+                    chk.fail(("resume", key, how), dict(case, step=j), observed=o[key], expected=e[key])
+        return ("ok", tuple(st[0] for _, st in sorted(state.items())), tuple(st[2] for _, st in sorted(state.items())))
+    finally:
+        fs.cleanup()
+
+
 # ----------------------------------------------------------------------
 def execute(cfg, ctx, chk, lookups=True):
+    if cfg["mode"].startswith("resume:"):
+        return execute_resume(cfg, ctx, chk)
     """one complete execution on the implementation + comparison with the reference.
     Returns an outcome key."""
     from models import runner_model as RM
